@@ -30,6 +30,7 @@ type State struct {
 	ver       int64
 	dirty     map[Atom]int64   // memory cell atoms -> version of their last write
 	loopEnter map[string]int64 // loop id -> version when the loop was entered from outside
+	loadMemo  map[string]Atom  // (opt-in) unresolved address -> atom of the last integer load, valid until the next store/call
 }
 
 // LinCong: E ≡ 0 (mod M), E over base atoms.
@@ -91,6 +92,12 @@ func (s *State) Clone() *State {
 	n.loopEnter = make(map[string]int64, len(s.loopEnter))
 	for k, v := range s.loopEnter {
 		n.loopEnter[k] = v
+	}
+	if len(s.loadMemo) > 0 {
+		n.loadMemo = make(map[string]Atom, len(s.loadMemo))
+		for k, v := range s.loadMemo {
+			n.loadMemo[k] = v
+		}
 	}
 	return n
 }
@@ -803,6 +810,49 @@ func (s *State) AtomsOf(e Lin) []Atom {
 	var out []Atom
 	for _, t := range s.Subst(e).T {
 		out = append(out, t.A)
+	}
+	return out
+}
+
+// ModularValues lists expressions v with e ≡ v (mod m), obtained from e itself
+// and from the linear congruences of the state (moduli that are multiples of m).
+func (s *State) ModularValues(e Lin, m int64) []Lin {
+	se := s.Subst(e)
+	if se.Bad {
+		return nil
+	}
+	out := []Lin{se}
+	for depth := 0; depth < 2; depth++ {
+		n := len(out)
+		for _, x := range out[:n] {
+			for _, l := range s.lc {
+				if l.M%m != 0 {
+					continue
+				}
+				for _, t := range l.E.T {
+					if t.K != 1 && t.K != -1 {
+						continue
+					}
+					k := x.Coef(t.A)
+					if k == 0 {
+						continue
+					}
+					y := x.AddMul(l.E, -k*t.K)
+					if y.Bad {
+						continue
+					}
+					dup := false
+					for _, o := range out {
+						if o.Equal(y) {
+							dup = true
+						}
+					}
+					if !dup {
+						out = append(out, y)
+					}
+				}
+			}
+		}
 	}
 	return out
 }
